@@ -44,7 +44,7 @@ def classify(text):
         return K_UNBAL
     if text.startswith('Invalid date') or 'Day of month is not valid' in text:
         return K_DATE
-    if 'Balance assertion off' in text:
+    if 'Balance assertion off' in text or 'ssertion failed' in text:
         return K_ASSERT
     if text.startswith('Unknown account'):
         return K_ACCOUNT
@@ -166,6 +166,8 @@ class Builder:
             last = -sum(cents)
         elide = rng.random() < 0.4 and K_UNBAL not in faults and K_ASSERT not in faults
         asserted = use_bank and not elide and (K_ASSERT in faults or rng.random() < 0.6)
+        # a failed assertion is either a balance assertion on a posting or an `assert EXPR` line
+        assert_line = K_ASSERT in faults and rng.random() < 0.35
         # head
         d = self.date()
         t = -1
@@ -215,7 +217,7 @@ class Builder:
             tail = ''
             if j == npost - 1 and asserted:
                 want = self.bank + amt
-                if K_ASSERT in ks:
+                if K_ASSERT in ks and not assert_line:
                     want += rng.choice([1, -1, 700, -123456])
                 tail = ' = ' + money(want)
             # order in which parse_post meets the problems: account, amount (its commodity is
@@ -226,7 +228,7 @@ class Builder:
                 thrown = K_AMOUNT
             elif K_COMMODITY in ks:
                 thrown = K_COMMODITY
-            elif K_ASSERT in ks:
+            elif K_ASSERT in ks and not assert_line:
                 thrown = K_ASSERT
             if j == npost - 1 and elide:
                 text = '    ' + acct
@@ -237,6 +239,10 @@ class Builder:
             lines.append((text, ['s', thrown]))
             if rng.random() < 0.12:
                 lines.append(('    ; note after posting %d' % j, ['s', -1]))
+        if assert_line:
+            lines.insert(rng.randrange(1, len(lines) + 1), ('    assert 2 + 2 == %d' % rng.choice([3, 5, 22]), ['s', K_ASSERT]))
+        elif rng.random() < 0.08:
+            lines.insert(rng.randrange(1, len(lines) + 1), ('    assert 2 + 2 == 4', ['s', -1]))
         if rng.random() < 0.12:
             lines.append((rng.choice(['   ', ' ', '\t', '    \t ']), 'w'))
         e = Entry(lines, faults=sorted(faults), tag='xact')
@@ -265,7 +271,9 @@ class Builder:
 
     def valid_directive(self):
         rng = self.rng
-        k = rng.randrange(7)
+        k = rng.randrange(8)
+        if k == 7:
+            return Entry([('assert 1 + 1 == 2', ['i', -1, 0, -1])], tag='dir')
         if k == 0:
             return Entry([('; a comment line', ['i', -1, 0, -1])], tag='dir')
         if k == 1:
@@ -289,7 +297,9 @@ class Builder:
 
     def bad_directive(self):
         rng = self.rng
-        k = rng.randrange(6)
+        k = rng.randrange(7)
+        if k == 6:
+            return Entry([('assert 1 + 1 == %d' % rng.choice([1, 3]), ['i', K_ASSERT, 0, -1])], faults=[K_ASSERT], tag='dir')
         if k == 0:
             return Entry([('P %s EUR $1.10' % rng.choice(BAD_DATES[:10]), ['i', K_DATE, 0, -1])], faults=[K_DATE], tag='dir')
         if k == 1:
@@ -389,16 +399,22 @@ def fill_file(b, rng, f, plan, depth, decls=False):
             prev_faulty = False
         # indented lines that belong to no block
         if rng.random() < 0.07:
+            last = f.entries[-1]
             gap = rng.random() < 0.7
-            if gap or what == 'i' or prev_faulty or f.entries[-1].lines[-1][1] == 'w' or f.entries[-1].lines[0][1][2] == 0:
-                if gap:
-                    f.entries.append(b.filler())
-                s = b.stray()
-                if prev_faulty:
-                    s.merge_prev = True        # swallowed: error_flag is still set
-                    s.faults = []
-                f.entries.append(s)
-                prev_faulty = True
+            head = last.lines[0][1]
+            # directly under a block that is still open they would be read as part of it
+            block_open = (what != 'i' and head[2] == 1 and last.lines[-1][1] != 'w'
+                          and not (prev_faulty and last.faults != [K_UNBAL]))
+            if block_open:
+                gap = True
+            if gap:
+                f.entries.append(b.filler())
+            s = b.stray()
+            if prev_faulty:
+                s.merge_prev = True        # swallowed: error_flag is still set
+                s.faults = []
+            f.entries.append(s)
+            prev_faulty = True
     if rng.random() < 0.3:
         f.entries.append(b.filler())
     if rng.random() < 0.08 and f.entries and f.entries[-1].lines[-1][1] not in ('e', 'w'):
@@ -527,7 +543,7 @@ def finish_case(c):
                 continue
             if e.merge_prev and prev_faulty is not None:
                 prev_faulty['last'] = e.last
-                last_item = None
+                last_item = prev_faulty
                 continue
             it = dict(file=f.name, first=e.first, last=e.last, faults=list(e.faults), tag=e.tag)
             c.items.append(it)
@@ -785,7 +801,7 @@ def run(ctx, n_override=None):
                 '10 malformed amounts, failed assertion, unknown account / commodity / payee under --pedantic [--check-payees], '
                 'malformed directives, stray indented lines, two faults in one transaction; plus journals with exactly 255, 256, 257, '
                 '300, 512 and random 100-300 faults; non-trivial = at least one injected fault or one include; distinct by shape')
-    n = n_override or ctx.scale(700, 10000)
+    n = n_override or ctx.scale(2500, 20000)
     cases = []
     for i in range(n):
         cases.append(build_case(rng, i))
